@@ -557,6 +557,41 @@ func (as *c13actor) do(c *core.Case, env *core.Env, st *c13state, op core.Op, cl
 	return true
 }
 
+// c13overlappingLocalOps tells whether two subscribe / cancel operations of
+// local subscribers of (connection, signal) overlapped in time.
+func c13overlappingLocalOps(subs []*c13sub, conn, sig int) bool {
+	type iv struct{ a, b int64 }
+	var ivs []iv
+	const inf = int64(1) << 62
+	for _, s := range subs {
+		if s.conn != conn || s.sig != sig {
+			continue
+		}
+		if s.ackCall != 0 {
+			b := s.ackRet
+			if b == 0 {
+				b = inf
+			}
+			ivs = append(ivs, iv{s.ackCall, b})
+		}
+		if s.cancelCall != 0 {
+			b := s.cancelRet
+			if b == 0 {
+				b = inf
+			}
+			ivs = append(ivs, iv{s.cancelCall, b})
+		}
+	}
+	for i, x := range ivs {
+		for _, y := range ivs[i+1:] {
+			if x.a < y.b && y.a < x.b {
+				return true
+			}
+		}
+	}
+	return false
+}
+
 func c13seqOf(marks []simnet.Mark, end int) int64 {
 	for _, m := range marks {
 		if m.Off >= end {
@@ -788,6 +823,12 @@ func (c13) Check(c *core.Case, env *core.Env, res zzsim.Result, v *core.Verdict)
 				}
 				if cw != nil && cw.evCount[sig][n] > 1 && maxRegs < 2 {
 					bad("duplicate/sent-twice-with-one-registration", "%s received event %d twice: the server sent it %d times on this connection although at most one registration of the signal was active there: %v\n  registrations (request written, reply written, reply read, ok): %v\n  unregister requests written at: %v; event written at: %v", name, n, cw.evCount[sig][n], s.evs, cw.regs[sig], cw.unregs[sig], cw.evAt[sig][n])
+				} else if cw != nil && cw.evCount[sig][n] > 1 && !c13overlappingLocalOps(st.subs, s.conn, sig) {
+					// two registrations at once are explained by the known
+					// defect of the shared registration count only when
+					// subscribe / cancel operations of local subscribers
+					// overlapped; here each returned before the next began
+					bad("duplicate/two-registrations-without-overlapping-operations", "%s received event %d twice: two registrations of the signal were active on the connection although the subscribe and cancel operations on it never overlapped: %v\n  registrations (request written, reply written, reply read, ok): %v\n  unregister requests written at: %v", name, n, s.evs, cw.regs[sig], cw.unregs[sig])
 				} else if cw != nil && cw.evCount[sig][n] > 1 {
 					bad("duplicate/sent-twice-on-connection", "%s received event %d twice: the server sent it %d times on this connection (two registrations of the signal were active): %v", name, n, cw.evCount[sig][n], s.evs)
 				} else {
